@@ -199,9 +199,25 @@ def check(run):
         run.check(bool(brk), 'R11.zero', f, 'break', 'once a stabilizer/standby row anticommutes the expectation is 0 and must stay 0')
         sign = [(st, ctx) for st, ctx in walk(f.node) if isinstance(st, ast.Assign) and isinstance(st.targets[0], ast.Subscript)
                 and norm(st.targets[0].value) == 'xs' and not isinstance(st.value, ast.Constant)]
+        # the flag that guards the sign: set to a constant before the row loop and cleared next to the zero store / break;
+        # the same protocol written as for ... else (the else arm runs only when the loop was not left by break) is accepted
+        zero_breaks = [b for b, cb in walk(f.node) if isinstance(b, ast.Break)
+                       and any(isinstance(s2, ast.Assign) and isinstance(s2.targets[0], ast.Subscript) and isinstance(s2.value, ast.Constant)
+                               and s2.value.value == 0 for s2 in cb.block)]
         for st, ctx in sign:
-            run.check(any(pol and norm(t) == 'trivial' for t, pol in ctx.conds), 'R11.zero', f, st,
-                      'the sign may only be written when no stabilizer/standby row anticommutes')
+            flag_ok = False
+            for t, pol in ctx.conds:
+                if isinstance(t, ast.Name) and pol:
+                    clears = [s2 for s2, c2 in walk(f.node) if isinstance(s2, ast.Assign) and norm(s2.targets[0]) == t.id
+                              and isinstance(s2.value, ast.Constant) and s2.value.value is False
+                              and any(isinstance(b, ast.Break) for b in c2.block)]
+                    flag_ok = flag_ok or bool(clears)
+            par = ctx.parent_stmt
+            else_ok = isinstance(par, ast.For) and any(s2 is st for s2 in par.orelse) and \
+                any(b in [x for x in ast.walk(par) if isinstance(x, ast.Break)] for b in zero_breaks)
+            run.check(flag_ok or else_ok, 'R11.zero', f, st,
+                      'the sign may only be written when no stabilizer/standby row anticommutes (a flag cleared where the loop is left, '
+                      'or the else arm of the row loop)')
     trace_kernel(run, repo, K.PY_U, True)
     trace_kernel(run, repo, K.TC_U, False)
     K.product_sites(run, repo.func(K.PY_U, 'stabilizer_projection_trace'), floor=2)
